@@ -4,61 +4,61 @@ import json, os
 VERIF = os.path.dirname(os.path.dirname(os.path.dirname(os.path.abspath(__file__))))
 
 CLAIMS = {
- "C01": ("refusal gate dominates every FileDesc construction (MPT+WMC); per-scheme capacity constants fit the wire field; partition call agreement and the RFC 5052 closed forms of block_partitioning / block_length (polynomial normal forms); every metadata field flows object -> FDT File -> writer metadata; decoding parameters (cenc, oti, transfer length) written only from their packet / FDT source",
-         "E2 structural rules over MIR: must-pass-through, who-may-call, dataflow slices, arm constants vs RFC widths; polynomial normal forms of the partition formulas",
+ "C01": ("refusal gate bound to the FileDesc's own OTI/object (MPT+WMC); per-scheme capacity constants fit the wire field; partition call agreement and RFC 5052 closed forms; Z written >= 1; metadata flow object -> FDT File -> writer metadata; decoding parameters only from packet / FDT; BlockWriter byte accounting, MD5 switch order, no feeding of the inflater after the content length; receive-once decision table; receiver block addressing; close-object flag never premature",
+         "E2 structural rules over MIR (must-pass-through, who-may-call, slices, arm constants vs RFC widths), polynomial normal forms, E3 decision tables, E4 ranges",
          "byte-exact round trip, FEC/inflate/XML library behaviour and exactly-one-copy are NOT decided"),
- "C02": ("close-object flag accounts for every interleaved block; symbol consumed before the flag acts; duplicates neither overwrite nor count; decode thresholds over all orderings",
+ "C02": ("close-object flag accounts for every interleaved block, counts source symbols only (esi < k) and compares with the transfer length; symbol consumed before the flag acts; duplicates neither overwrite nor count; decode thresholds over all orderings; attach_fdt records the instance id before it opens the writer and flushes decoded blocks",
          "E2 dependence/dominance rules + E3 decision tables over comparison orderings",
          "delivery for every loss pattern (liveness, MDS property of the RS library) is NOT decided"),
- "C03": ("MD5 gate before complete(); strict SBN order; first copy wins; at most one terminal writer call over all entry orders (typestate); stale packets ignored; decoding parameters only from their packet / FDT source",
+ "C03": ("MD5 gate before complete(); strict SBN order; first copy wins; at most one terminal writer call over all entry orders (typestate); stale packets ignored; decoding parameters only from packet / FDT; BlockWriter byte accounting (trim to bytes_left, content-length limit, MD5 finalised on completion, MD5 switch decided before the BlockWriter is built)",
          "E2 dominance rules + E3 interprocedural typestate exploration",
          "equality of written bytes with the sender's bytes over all histories is NOT decided"),
- "C04": ("exhaustive inventory of panic-capable sites, loops, allocations and third-party calls reachable from the receiver entry points; each discharged by the range interpreter, reviewed in a table with re-checked guards, or a known finding",
+ "C04": ("exhaustive inventory of panic-capable sites, loops, allocations and third-party calls reachable from the receiver entry points; each discharged by the range interpreter, reviewed in a table with re-checked guards (each precondition of the raptorq constructor as a dominating fact), or a known finding; failed / expired FDT instances are released (decision table over FDT states)",
          "E1 call-graph inventory + E4 range interpreter (intervals, lengths, option-ness, difference facts) + reviewed tables",
          "'a later valid session is still delivered', time and heap numbers are NOT decided; dependencies trusted beyond the listed preconditions"),
  "C05": ("filesystem sinks only in ObjectWriterFS::{open,error}; every sink path is dest.join(rel) behind a confinement check on rel; only created files are deleted",
          "E2 who-may-call + taint/sanitiser/sink dominance with a decision table over path::Component variants",
          "semantics of url::Url::path and symlinks inside the destination are NOT decided"),
- "C06": ("writer layout = reader layout = RFC layout bit by bit for EXT_FTI and FEC payload ids of 5 schemes, EXT_FDT, EXT_CENC; first LCT word flags at their RFC 5651 positions and CCI/TSI/TOI byte counts = 4(C+1) / 4S+2H / 4O+2H with one shared H; inc_hdr_len bookkeeping; no lossy narrow shift; flag/version constants",
-         "E5 bit-provenance interpreter vs RFC tables + affine length forms + E4 ranges",
+ "C06": ("writer layout = reader layout = RFC layout bit by bit for EXT_FTI and FEC payload ids of 5 schemes, EXT_FDT (20-bit id range re-checked), EXT_CENC, EXT_TIME; first LCT word flags at their RFC 5651 positions with the right source (A <- close_session, B <- close_object) and CCI/TSI/TOI byte counts; width-class tables of the byte-count helpers and flag derivation; fixed-length extension boundary; NTP offset / scaling structure; inc_hdr_len bookkeeping; no lossy narrow shift",
+         "E5 bit-provenance interpreter vs RFC tables + affine length forms + arm tables + E4 ranges",
          "value-dependent CCI/TSI/TOI widths, NTP arithmetic, RS GF(2^m) payload id are NOT decided"),
- "C07": ("all callers of block_partitioning / block_length agree on argument roles and widths; RaptorQ/Raptor readers rebuild B from the F, Z, T they return (nested ceiling division); Z written from the same partition call; block_partitioning / block_length return the RFC 5052 closed forms (polynomial normal forms with div_ceil/div_floor atoms)",
-         "E2 argument provenance with expanded expression trees + polynomial normal forms",
+ "C07": ("all callers of block_partitioning / block_length agree on argument roles and widths; RaptorQ/Raptor readers rebuild B from F, Z, T; Z written from the same partition call and never 0 (range vs the reader's refusal); RFC 5052 closed forms (polynomial normal forms); the receiver partitions with the object's own OTI (File before instance)",
+         "E2 argument provenance with expanded expression trees + polynomial normal forms + E4 ranges",
          "equality with RFC 5052 for all (L,E,B) is a numerical identity and NOT decided"),
- "C08": ("close-object flag sources (all blocks drained and nothing left to open / forced close / empty object) and the stopped latch; close-session constant; shard cursor and block counter only move by +1; stream read errors other than Interrupted end the transfer with an error, Interrupted retries",
+ "C08": ("close-object flag sources (all blocks drained and nothing left to open / forced close / lone packet only for transfer length 0, debug-only guards not counted) and the stopped latch; byte threshold = transfer length; close-session constant; A/B flags at RFC positions on both sides; shard cursor and block counter only move by +1; shard creation (count, dispatch, roles, ESI = position, RS padding); stream reads (fill loop, Interrupted retried, rewind per transfer)",
          "E2 dependence, dominance and who-writes-field rules",
          "payload slices and repair symbol counts are NOT decided"),
- "C09": ("who-may-call for the five ObjectWriter methods; typestate of the writer session over all orders and repetitions of the ObjectReceiver entry points followed by Drop; complete gated by is_completed+MD5 or zero length; no leak primitives",
+ "C09": ("who-may-call for the five ObjectWriter methods; typestate of the writer session over all orders and repetitions of the ObjectReceiver entry points followed by Drop; complete gated by is_completed+MD5 or zero length; writer created only when no session exists and FDT id / cenc / length / OTI are known, open only on StoreObject, MD5 switch decided before the BlockWriter; no leak primitives",
          "E3 finite-domain interprocedural typestate interpreter with method summaries + E2 who-may-call",
          "'concatenated writes are a prefix of the content' (bytes) is NOT decided; user writers cannot re-enter the receiver"),
- "C10": ("instance id written only in new/publish, new value in [0,2^20-1], each queued instance followed by the increment and carrying the pre-increment id; metadata flow; Expires = ntp(now of this publication) + duration, last_publish = Some(now) only in publish; publish marks all files; list source by publish mode; receiver-side extraction: File OTI before instance OTI, Transfer-Length before Content-Length, sibling get_oti mappings agree",
+ "C10": ("instance id written only in new/publish, every stored value in [0,2^20-1] (initial value included), each queued instance followed by the increment and carrying the pre-increment id; metadata flow; Expires = ntp(now of this publication) + duration; renewal predicate shape and publish-before-pop; publish marks all files; list source by publish mode; receiver-side extraction order and sibling agreement; FDT bytes reach the parser unaltered",
          "E2 who-writes-field/pairing/dependence/fallback-order rules + E4 range of the assigned id",
          "XML well-formedness/escaping, set equality over histories and supersede timing are NOT decided"),
  "C11": ("FDT session polled first; object sessions emit only past the FDT-pending gate evaluated after get_next; FullFDT eligibility requires published; set_published only in publish and only after the instance is queued; auto-publish pairing",
          "E2 must-pass-through under assumptions, dominance, who-may-call",
          "interleavings as such are NOT decided (mechanism's necessary conditions only)"),
- "C12": ("transfer counters written only by done(+1)/init(reset under carousel); expiry, last-transfer and can-be-stopped predicates over all orderings (never-reset counter); requeue-or-forget decision table incl. membership test; loop inventory on the read path",
+ "C12": ("transfer counters written only by done(+1)/init(reset under carousel); expiry, last-transfer and can-be-stopped predicates over all orderings (never-reset counter); requeue-or-forget decision table incl. membership test; no restart while elapsed <= interval (zero interval at a fixed instant); loop inventory on the read path",
          "E2 who-writes-field + E3 decision tables + loop classifier",
          "exact wire counts over histories and general termination are NOT decided"),
- "C13": ("ordered map iterated forwards with first Some winning; per-queue session count max(1, multiplex_files) fixed at construction; FIFO queue mutators; interleave window guard; every object session yields while an FDT is pending (a yielding higher-priority session is not overtaken)",
+ "C13": ("ordered map iterated forwards with first Some winning; per-queue session count max(1, multiplex_files) fixed at construction; slot cursor advances before a packet is returned; FIFO queue mutators; interleave window guard; every object session yields while an FDT is pending",
          "E2 type facts, who-may-call over collection mutators, dominance",
          "fairness / readiness over time are NOT decided"),
  "C14": ("never-early gates of should_transfer_now over all orderings; reference time per carousel mode; last-transfer timestamps written only at transfer start/end, explicit reset only when not transferring; pacing gate dominates encoder.read and tick pairing; tick value; non-zero divisor for empty objects",
          "E3 decision tables + E2 must-pass-through/pairing/argument rules",
          "pacing accuracy ('first poll at or after due time') is NOT decided"),
- "C15": ("each width arm within its width; cursor never 0 at exits; uniqueness mechanism; ownership witnesses (compile_fail / compile-pass); TOI provenance to wire and FDT; O/H flags and TOI byte count in the LCT header",
+ "C15": ("each width arm within its width; cursor never 0 at exits; uniqueness mechanism (loop exit only on a free cursor, cursor written only inside the loop); ownership witnesses (compile_fail / compile-pass); TOI provenance to wire and FDT; O/H flags and TOI byte count in the LCT header",
          "E4 ranges per arm and at exits + E2 + E5 (LCT first word) + E6 compile-fail witnesses built against the tree",
          "uniqueness over concrete histories only through the mechanism"),
- "C16": ("state Completed implies complete() delivered or ObjectAlreadyReceived (typestate over all entry orders); replay pairings incl. flush of blocks decoded before the FDT; registry insert only under Completed; in-band Z / B from the same partition argument roles as the receiver",
+ "C16": ("state Completed implies complete() delivered or ObjectAlreadyReceived (typestate over all entry orders); replay pairings incl. flush of blocks decoded before the FDT and attach ordering; registry insert only under Completed; in-band Z / B from the same partition roles; every transfer start republishes in being-transferred mode; the instance offered to waiting objects is the one just completed; decoding parameters not frozen before the FDT",
          "E3 typestate + E2 pairing/dominance",
          "delivery within two cycles for every join offset (liveness) is NOT decided"),
- "C17": ("inventory of growth calls on receiver registries each with a bound; cache counter grows by at least the cached datagram; timeout clock refreshed only by packets of the object; timeout cleanup covers every registry and state",
+ "C17": ("inventory of growth calls on receiver registries each with a bound; cache counter grows by at least the cached datagram; block allocation limit accounts in bytes in both arms; timeout clock refreshed only by packets of the object; cleanup decision table over FDT states and timeouts; cleanup covers every registry",
          "E2 who-may-call over growth methods + dominance/pairing + predicate inspection",
          "live heap bytes are NOT decided"),
  "C18": ("routing key provenance and derived Hash/Eq; filter gate before dispatch; open only on creation, every removal paired with close for the removed keys and close only for a session that existed, single evaluation of clock-reading predicates; sibling refcount shapes",
          "E2 argument/type rules, must-pass-through under assumption, pairing, E3 decision table of is_valid",
          "isolation as behaviour and refcount arithmetic over sequences are NOT decided"),
- "C19": ("is_expired over all orderings; Expired only under enable_expired_check from Complete; both attach_fdt sites behind update_expired_state + Complete; skew sign consistency",
+ "C19": ("is_expired over all orderings; Expired only under enable_expired_check from Complete; both attach_fdt sites behind update_expired_state + Complete; skew sign consistency; Expires taken from the instance's own attribute as NTP seconds (upper half), None when unparsable",
          "E3 decision table + E2 dominance/must-pass-through/argument rules",
          "outcomes over all clock offsets (time arithmetic) are NOT decided"),
  "C20": ("stream block buffer filled by a loop on the object's own stream (no per-block buffering adaptor), Interrupted retried; every transfer rewinds and builds a fresh encoder; sibling block readers agree; stream length measured with position restored",
